@@ -7,7 +7,7 @@ record("TbCode", co_filename="str")
 record("TbFrame", f_code="TbCode", f_lineno="int")
 record("TbEntry", tb_frame="TbFrame", tb_lineno="int")
 record("Namespace", cleared="bool")
-dict_record("DoctestConfig", on_error="str", verbose="int", default_runtime_state="Val", reportchoice="str",
+dict_record("DoctestConfig", on_error="str", verbose="int", default_runtime_state="Val", reportchoice="str", colored="bool",
             global_exec="None")   # assumption of every proof: no --global-exec code is configured (it runs outside
                                    # the capture and outside the failure ladder; not among the properties' quantifiers)
 # a RuntimeState seen from outside: an abstract value (its lookup semantics is C04)
@@ -361,3 +361,36 @@ contract(_Q + "format_parts",
          note="region: the whole body minus the computation of the number WIDTH (dropped: n_lines / endline / n_digits); format_parts: every part is formatted exactly once, in order, with the same options and the same first line number: 1 "
               "(doctest-relative) or the doctest's line in its file (offset_linenos); the number width is computed once for the whole doctest",
          sentinel=("numbering-restarts-per-part", "True == False"))
+
+
+# ------------------------------------------------------------------------ C09.render: repr_failure as a whole
+contract("xdoctest.doctest_example:DocTest.format_parts#list",
+         params={"self": "DocTest", "linenos": "bool", "colored": "Val", "want": "bool", "offset_linenos": "Optional[Val]", "prefix": "bool"},
+         returns="list[str]", trusted=True, log=False,
+         note="the caller's view of the generator format_parts (its own contract: C18): the formatted parts as a list; assumed not to "
+              "raise here: a doctest with a recorded failure has been parsed already, so _parse() inside it is a no-op")
+contract("xdoctest.checker:GotWantException.output_difference", params={"self": "Exc[GotWantException]", "runstate": "Val", "colored": "Val"},
+         returns="str", trusted=True, log=False, note="T: difflib text")
+contract("xdoctest.checker:GotWantException.output_repr_difference", params={"self": "Exc[GotWantException]", "runstate": "Val"},
+         returns="str", trusted=True, log=False, note="T: repr text")
+_LOCL = "line.split(',')[(-2 if len(line.split(',')) > 2 else -1)].strip().split()"
+contract(_Q + "repr_failure#whole",
+         params={"self": "DocTest", "with_tb": "bool"}, returns="list[str]",
+         requires=[("a-known-front-end", "self.mode == 'native' or self.mode == 'pytest'"),
+                   ("tb-line-known", "implies(self.exc_info is not None and self.failed_part != '<IMPORT>' and not " + _ISREPR +
+                    " and not " + _ISGW + ", self.failed_tb_lineno is not None)")],
+         raises={},
+         ensures=[("nothing-to-report-without-a-failure", "implies(self.exc_info is None, len(result) == 0)"),
+                  ("names-the-exception-type", "implies(self.exc_info is not None, len(result) >= 1 and "
+                                               "result[0] == '* REASON: ' + S.class_name(self.exc_info[0]))")],
+         props=["C09"],
+         opts={"native": False,
+               "use": {"xdoctest.doctest_example:DocTest.format_parts": "xdoctest.doctest_example:DocTest.format_parts#list"},
+               "region": {"from": "if self.exc_info is None:", "drop": ["for partx, (part, part_text) in enumerate("]},
+               "assume_after": {"tblines = traceback.format_exception(": [
+                   "implies(self.failed_part == '<IMPORT>', all(not (self._partfilename in line) for line in tblines))",
+                   "all(implies(self._partfilename in line, len(" + _LOCL + ") >= 2 and S.is_int_literal(" + _LOCL + "[1])) for line in tblines)"]}},
+         note="region: the whole body except the loop that sorts the formatted parts into passed / failed / remaining (dropped: it only "
+              "moves already formatted text between three lists).  Assumed about CPython's traceback.format_exception, stated at the "
+              "call: a line that contains the doctest's pseudo file name is a location line, and an import failure has no frame in it",
+         sentinel=("always-empty", "len(result) == 0"))
